@@ -844,17 +844,19 @@ def ref_sfetch(rng, i):
     ops = [op_file("in.fa", text), op_run("esl-sfetch", ["--index", "in.fa"])]
     name, desc, seq = rng.choice(recs)
     L = len(seq)
-    mode = rng.choice(["one", "one-r", "one-n", "sub", "sub", "multi", "gdf"])
-    def coords():
+    mode = rng.choice(["one", "one-r", "one-n", "sub", "sub", "sub", "multi", "gdf", "gdf"])
+    def coords():      # forward (a <= b), reversed (a > b: reverse complement), single residue, to-the-end (b = 0)
         a = rng.choice([1, L, rng.randrange(1, L + 1)])
         b = rng.choice([1, L, 0, rng.randrange(1, L + 1), a])
+        if rng.random() < 0.35 and b != 0 and a < b:
+            a, b = b, a
         return a, b
     if mode == "one": args = ["in.fa", name]
     elif mode == "one-r": args = ["-r", "in.fa", name]
     elif mode == "one-n": args = (["-r"] if rng.random() < 0.3 else []) + ["-n", "renamed", "in.fa", name]
     elif mode == "sub":
         a, b = coords()
-        args = (["-r"] if rng.random() < 0.3 else []) + (["-n", "nn"] if rng.random() < 0.3 else []) + ["-c", "%d..%d" % (a, b), "in.fa", name]
+        args = (["-r"] if rng.random() < 0.5 else []) + (["-n", "nn"] if rng.random() < 0.3 else []) + ["-c", "%d..%d" % (a, b), "in.fa", name]
     elif mode == "multi":
         ks = [r[0] for r in recs]; rng.shuffle(ks); ks = ks[:rng.randrange(1, len(ks) + 1)]
         ops.append(op_file("keys", "\n".join(ks) + "\n"))
@@ -866,8 +868,17 @@ def ref_sfetch(rng, i):
             a, b = coords()
             lines.append("sub%d %d %d %s" % (k, a, b, name))
         ops.append(op_file("gdf", "\n".join(lines) + "\n"))
-        args = (["-r"] if rng.random() < 0.3 else []) + ["-C", "-f", "in.fa", "gdf"]
+        args = (["-r"] if rng.random() < 0.5 else []) + ["-C", "-f", "in.fa", "gdf"]
+    # output to a file: -o <f> (any mode) or -O (single fetch; file named after the key) - stdout then only carries a note
+    outname = None
+    w = rng.random()
+    if w < 0.2:
+        outname = "out.fa"; args = ["-o", outname] + args
+    elif w < 0.3 and mode in ("one", "one-r", "one-n", "sub") and re.fullmatch(r"[A-Za-z0-9_.]+", name):
+        outname = name; args = ["-O"] + args
     ops.append(op_run("esl-sfetch", args))
+    if outname:
+        ops.append("cat name=%s" % outname)
     return {"name": "ref-sfetch-%d-%s" % (i, mode), "ref": True, "sticky": len(ops) - 1, "ops": ops}
 
 
@@ -1105,6 +1116,17 @@ def corpus_cases(ctx):
         {"name": "corpus-shuffle-L-skip", "ref": True, "sticky": 1,
          "ops": [op_file("in.fa", ">prot1 x\na\n>seq2 x\nACg\n>n|m3\nAAACGAG\nGCTACGC\nATTAAAT\nCTAGCAC\nCTACCGT\nGGCTGCC\nGCTADGT\nGAGCATA\nACTCT\n"),
                  op_run("esl-shuffle", ["--seed", "2", "-m", "-L", "5", "--informat", "fasta", "in.fa"])]},
+        # esl-sfetch: -r and reversed coordinates are two separate reverse-complement steps that cancel
+        {"name": "corpus-sfetch-r-reversed-c", "ref": True,
+         "ops": [op_file("db.fa", ">seq1 d\nACGTTGCAAGGCTTAACCGGTTACGATCGATCGGATCCAATTGGCCAAGT\n>p2\nAAAACCCCGGGGTTTT\n"),
+                 op_run("esl-sfetch", ["--index", "db.fa"]), op_run("esl-sfetch", ["-r", "-c", "41..7", "db.fa", "seq1"]),
+                 op_run("esl-sfetch", ["-c", "41..7", "db.fa", "seq1"]), op_run("esl-sfetch", ["-r", "-c", "7..41", "db.fa", "seq1"]),
+                 op_run("esl-sfetch", ["-r", "-c", "9..9", "-n", "one", "db.fa", "seq1"])]},
+        {"name": "corpus-sfetch-r-reversed-C", "ref": True,
+         "ops": [op_file("db.fa", ">seq1 d\nACGTTGCAAGGCTTAACCGGTTACGATCGATCGGATCCAATTGGCCAAGT\n>p2\nAAAACCCCGGGGTTTT\n"),
+                 op_file("gdf", "a 3 20 seq1\nb 20 3 seq1\nc 16 1 p2\nd 5 5 p2\ne 7 0 seq1\n"),
+                 op_run("esl-sfetch", ["--index", "db.fa"]), op_run("esl-sfetch", ["-r", "-C", "-f", "db.fa", "gdf"]),
+                 op_run("esl-sfetch", ["-C", "-f", "db.fa", "gdf"])]},
         # top level of the `easel` driver and of esl-mixdchlet (esl_subcmd.c dispatch)
         {"name": "corpus-easel-h", "expect_ok": True, "ops": [op_run("easel", ["-h"])]},
         {"name": "corpus-easel-help", "expect_ok": True, "ops": [op_run("easel", ["--help"])]},
@@ -1129,7 +1151,7 @@ def reference_cases(ctx):
     per = 30 if ctx.tier == "quick" else 300
     out = []
     for tool, g in REF_GENERATORS:
-        for i in range(max(6, per // 5) if tool == "easel index" else (2 * per if tool == "esl-translate" else per)):
+        for i in range(max(6, per // 5) if tool == "easel index" else (2 * per if tool in ("esl-translate", "esl-sfetch") else per)):
             out.append(g(rng, i))
     return out
 
